@@ -65,6 +65,17 @@ psRes_t psVerifySig(psPool_t *pool,
     {
 # ifdef USE_RSA
     case PS_RSA:
+        if (msgInLen > sizeof(out))
+        {
+            /* The reference value is a digest (or a DigestInfo of one): an RSA
+               key is never asked to verify a longer message directly, e.g.
+               the TBSCertificate of a certificate that names a signature
+               algorithm of another key type.  'out' receives msgInLen bytes. */
+            psTraceCrypto("Message too long for RSA signature verification\n");
+            rc = PS_VERIFICATION_FAILED;
+            *verifyResult = PS_FALSE;
+            goto out;
+        }
 #  ifdef USE_PKCS1_PSS
         if (opts && opts->useRsaPss)
         {
